@@ -67,6 +67,9 @@ def gen(rng, ctx):
                 cd["nodes"] += [["spare_in2", "input", False], ["spare_g", "and", False]]
                 cd["edges"] += [["spare_in", "spare_g"], ["spare_in2", "spare_g"]]
             shape += "+spare_input"
+    if not sup and rng.random() < 0.06:
+        cd["nodes"].append(["kout", rng.choice(["0", "1", "x"]), True])  # a tie cell that is itself a primary output
+        shape += "+constant_output"
     if rng.random() < 0.1:
         # a node already carrying the name limit_fanin would give its helper gate (e.g. the circuit came out of limit_fanin(c, 3))
         preds = G.cd_preds(cd)
@@ -140,6 +143,8 @@ def check(case, ctx):
     ctx.count(f"shape:{case['shape'].split('+')[0]}")
     if "hostile" in case["shape"]:
         ctx.count("hostile_helper_names")
+    if "constant_output" in case["shape"]:
+        ctx.count("constant_cell_is_an_output")
     if "dangling" in case["shape"]:
         ctx.count("unobserved_gate_next_to_the_cone")
     if "spare_input" in case["shape"]:
@@ -217,7 +222,8 @@ def check(case, ctx):
     cone = set()
     for o in lim.outputs:
         cone |= reach(lim.preds, [o]) | {o}
-    gates_in_cone = {n for n in cone if lim.types[n] in sim.GATES}
+    # gates of the cones, and tie cells that are themselves outputs (each is a block of its own)
+    gates_in_cone = {n for n in cone if lim.types[n] in sim.GATES} | {o for o in lim.outputs if lim.types[o] in ("0", "1", "x")}
     covered = set()
     for s in sn:
         covered |= {n for n, t in s.types.items() if not (t == "input")}
